@@ -24,7 +24,9 @@ ASSUMPTIONS = ['"ascending within one octave" and "bass = tone named by the figu
 
 def mk(inp, text=None):
     from musiclang import Chord, Tonality
-    base = Chord(inp['elem'], tonality=Tonality(inp['deg'], inp['mode'], inp['toct']), octave=inp['coct'])
+    # `bare`: a chord written without a tonality (the library then means C major); the chord octave still counts
+    ton = None if inp.get('bare') else Tonality(inp['deg'], inp['mode'], inp['toct'])
+    base = Chord(inp['elem'], tonality=ton, octave=inp['coct'])
     return base[inp['ext'] if text is None else text]
 
 
@@ -180,6 +182,11 @@ def oracle(ctx):
                          'mode': rng.choice(gen.MODES), 'toct': rng.randint(-1, 1), 'coct': rng.randint(-1, 1)})
     for c, text in gen_chords(ctx, ctx.n(500, 20000)):
         todo.append(chord_inp(c, text))
+    # chords written without a tonality, at several chord octaves (seed C02-4)
+    for fig in gen.FIGS:
+        for _ in range(2):
+            todo.append({'elem': rng.randrange(7), 'ext': fig, 'deg': 0, 'mode': 'M', 'toct': 0, 'coct': rng.randint(-3, 3),
+                         'bare': True})
     for s, i in ctx.suspects:
         if i and 'ext' in i:
             todo.insert(0, {k: v for k, v in i.items() if k != 'k'})
